@@ -10,6 +10,7 @@
 package main
 
 import (
+	"io/ioutil"
 	"bytes"
 	"flag"
 	"fmt"
@@ -228,6 +229,7 @@ type hostile struct {
 	ch         byte
 	msg        func(w *world) interface{} // typed message (encoded with the registered type prefix) ...
 	raw        func(w *world) []byte      // ... or raw bytes
+	follow     func(w *world) []interface{} // further typed messages of the same peer on the same channel, delivered right after
 	mustIgnore bool                       // reference predicate: invalid under every reading => digest must not change
 }
 
@@ -326,8 +328,54 @@ func voteMutations() []hostile {
 	return out
 }
 
+// altSplit re-packs the bytes of candidate block b into parts of another size (optionally with trailing bytes appended):
+// the same block (same header hash) under a different part-set header — what an equivocating proposer can sign.
+func (w *world) altSplit(b, size int, trailing []byte) *types.PartSet {
+	bz, err := ioutil.ReadAll(w.parts[b].GetReader())
+	if err != nil {
+		vk.Fatalf("reassembling block %d: %v", b, err)
+	}
+	ps := types.NewPartSetFromData(append(bz, trailing...), size)
+	if ps.HasHeader(w.parts[b].Header()) {
+		vk.Fatalf("altSplit(%d): part-set header did not change", size)
+	}
+	return ps
+}
+
 func proposalMutations() []hostile {
 	var out []hostile
+	// the proposer of the round signs a SECOND proposal for the same block bytes split differently, and sends its parts
+	for _, alt := range []struct {
+		name     string
+		size     int
+		trailing []byte
+	}{{"AltSplit(larger-parts)", partSize + 37, nil}, {"AltSplit(smaller-parts)", partSize - 41, nil}, {"AltSplit(one-part)", 1 << 20, nil},
+		{"AltSplit(trailing-byte)", partSize, []byte{0}}} {
+		alt := alt
+		for _, withParts := range []bool{true, false} {
+			withParts := withParts
+			nm := fmt.Sprintf("Proposal{%s,proposer,parts=%v}", alt.name, withParts)
+			h := hostile{name: nm, ch: cs.DataChannel, msg: func(w *world) interface{} {
+				r := w.round()
+				p := *w.proposal(r, 0, -1)
+				p.BlockPartsHeader = w.altSplit(0, alt.size, alt.trailing).Header()
+				sig, _ := w.f.Keys[w.proposer(r)].Sign(p.SignBytes(csnet.ChainID))
+				p.Signature = sig
+				return &cs.ProposalMessage{Proposal: &p}
+			}}
+			if withParts {
+				h.follow = func(w *world) []interface{} {
+					ps := w.altSplit(0, alt.size, alt.trailing)
+					var ms []interface{}
+					for i := 0; i < ps.Total(); i++ {
+						ms = append(ms, &cs.BlockPartMessage{Height: w.h, Round: w.round(), Part: ps.GetPart(i)})
+					}
+					return ms
+				}
+			}
+			out = append(out, h)
+		}
+	}
 	type mut struct {
 		name    string
 		f       func(w *world, p *types.Proposal)
@@ -629,14 +677,23 @@ func normPanic(v interface{}) string {
 }
 
 type outcome struct {
-	recvPanic string
-	queued    int
-	changed   bool
-	viol      [2]string
+	recvPanic      string
+	queued         int
+	changed        bool
+	committedAfter bool
+	viol           [2]string
 }
 
-// runCase delivers the hostile messages (one or two) to a fresh node in state st.
-func runCase(f *csnet.Fixture, st state, hs []hostile) outcome {
+// runCase delivers the hostile messages (one or two, each with its follow-up messages) to a fresh node in state st,
+// then asks the node to go on: cont == contTimeouts fires timeouts, cont == contHonest lets the honest rest of the
+// network complete the round (honest proposal and parts if none was accepted, then the other validators' prevotes and
+// precommits for the honest block id, then timeouts).
+const (
+	contTimeouts = 0
+	contHonest   = 1
+)
+
+func runCase(f *csnet.Fixture, st state, hs []hostile, cont int) outcome {
 	var o outcome
 	w := newWorld(f)
 	defer w.close()
@@ -647,32 +704,42 @@ func runCase(f *csnet.Fixture, st state, hs []hostile) outcome {
 	for _, h := range hs {
 		names = append(names, h.name)
 		mustIgnore = mustIgnore && h.mustIgnore
-		var bz []byte
+		var wire [][]byte
 		if h.raw != nil {
-			bz = h.raw(w)
+			wire = append(wire, h.raw(w))
 		} else {
-			var err error
-			if p, pv := vk.Catch(func() { bz, err = ser.EncodeToBytesWithType(h.msg(w)) }); p || err != nil {
-				_ = pv
-				continue // not encodable: cannot travel on the wire
+			msgs := []interface{}{h.msg(w)}
+			if h.follow != nil {
+				msgs = append(msgs, h.follow(w)...)
+			}
+			for _, m := range msgs {
+				var bz []byte
+				var err error
+				if p, _ := vk.Catch(func() { bz, err = ser.EncodeToBytesWithType(m) }); p || err != nil {
+					continue // not encodable: cannot travel on the wire
+				}
+				wire = append(wire, bz)
 			}
 		}
-		if p, pv := vk.Catch(func() { w.re.Receive(h.ch, w.peer, bz) }); p {
-			o.recvPanic = normPanic(pv) // contained by MConnection.recvRoutine's recover: peer dropped
-		}
-		for w.n.VerifPeerQueueLen() > 0 {
-			o.queued++
-			if p, pv := vk.Catch(func() { w.n.VerifStepPeerQueue(); w.n.Drain() }); p {
-				kind := h.name
-				if i := strings.Index(kind, ","); i > 0 && strings.HasPrefix(kind, "Vote{") || strings.HasPrefix(kind, "Proposal{") {
-					kind = kind[:strings.Index(kind, ",")] + "}"
+		for _, bz := range wire {
+			bz := bz
+			if p, pv := vk.Catch(func() { w.re.Receive(h.ch, w.peer, bz) }); p {
+				o.recvPanic = normPanic(pv) // contained by MConnection.recvRoutine's recover: peer dropped
+			}
+			for w.n.VerifPeerQueueLen() > 0 {
+				o.queued++
+				if p, pv := vk.Catch(func() { w.n.VerifStepPeerQueue(); w.n.Drain() }); p {
+					kind := h.name
+					if i := strings.Index(kind, ","); i > 0 && strings.HasPrefix(kind, "Vote{") || strings.HasPrefix(kind, "Proposal{") {
+						kind = kind[:strings.Index(kind, ",")] + "}"
+					}
+					if strings.HasPrefix(kind, "bytes:") {
+						kind = strings.Join(strings.Split(kind, ":")[:2], ":")
+					}
+					o.viol = [2]string{"state-machine-panic:" + kind + ":" + normPanic(pv),
+						fmt.Sprintf("in state %s message %s makes handleMsg panic: %v (receiveRoutine would log CONSENSUS FAILURE and exit)", st.name, h.name, normPanic(pv))}
+					return o
 				}
-				if strings.HasPrefix(kind, "bytes:") {
-					kind = strings.Join(strings.Split(kind, ":")[:2], ":")
-				}
-				o.viol = [2]string{"state-machine-panic:" + kind + ":" + normPanic(pv),
-					fmt.Sprintf("in state %s message %s makes handleMsg panic: %v (receiveRoutine would log CONSENSUS FAILURE and exit)", st.name, h.name, normPanic(pv))}
-				return o
 			}
 		}
 	}
@@ -684,6 +751,27 @@ func runCase(f *csnet.Fixture, st state, hs []hostile) outcome {
 		return o
 	}
 	// the node must be able to go on
+	if cont == contHonest {
+		if p, pv := vk.Catch(func() {
+			if w.n.App.Height() >= w.h {
+				return // the scripted state had already committed this height
+			}
+			r := w.round()
+			w.prop(r, 0)
+			w.partsAll(r, 0)
+			for k := 0; k < 3; k++ {
+				w.pv(k, r, w.ids[0])
+			}
+			for k := 0; k < 3; k++ {
+				w.pc(k, r, w.ids[0])
+			}
+		}); p {
+			o.viol = [2]string{"later-panic-after:" + strings.Split(names[0], ",")[0] + ":honest-round-completion:" + normPanic(pv),
+				fmt.Sprintf("in state %s after message(s) %v the honest completion of the round (proposal, parts, +2/3 prevotes and precommits of the other validators for the honest block id) makes the state machine panic: %v (receiveRoutine would log CONSENSUS FAILURE and exit)", st.name, names, normPanic(pv))}
+			return o
+		}
+		o.committedAfter = w.n.App.Height() >= w.h
+	}
 	if p, pv := vk.Catch(func() {
 		for i := 0; i < 3; i++ {
 			w.n.FireTimeout()
@@ -712,19 +800,27 @@ func main() {
 	raw := byteMutations(r.Quick())
 
 	type job struct {
-		st state
-		hs []hostile
+		st   state
+		hs   []hostile
+		cont int
 	}
 	var jobs []job
+	honest := 0
 	for _, st := range sts {
 		for _, h := range typed {
-			jobs = append(jobs, job{st, []hostile{h}})
+			jobs = append(jobs, job{st, []hostile{h}, contTimeouts})
+			// the same case followed by the honest completion of the round instead of timeouts (a message that is
+			// accepted now may make the node fail only when the honest votes arrive)
+			if !strings.Contains(h.name, "@channel") {
+				jobs = append(jobs, job{st, []hostile{h}, contHonest})
+				honest++
+			}
 		}
 	}
 	rawStates := sts[:]
 	for _, st := range rawStates {
 		for _, h := range raw {
-			jobs = append(jobs, job{st, []hostile{h}})
+			jobs = append(jobs, job{st, []hostile{h}, contTimeouts})
 		}
 	}
 	single := len(jobs)
@@ -740,7 +836,7 @@ func main() {
 		for _, st := range sts {
 			for _, a := range core {
 				for _, b := range core {
-					jobs = append(jobs, job{st, []hostile{a, b}})
+					jobs = append(jobs, job{st, []hostile{a, b}, contTimeouts})
 				}
 			}
 		}
@@ -749,6 +845,7 @@ func main() {
 		var rep struct {
 			State    string   `json:"state"`
 			Messages []string `json:"messages"`
+			Cont     int      `json:"continuation"`
 		}
 		r.LoadReplay(&rep)
 		var st *state
@@ -771,7 +868,7 @@ func main() {
 		}
 		// NOTE: a case that kills the process does so here too (run the replay under ulimit -v)
 		for i := 0; i < 5; i++ {
-			o := runCase(f, *st, hs)
+			o := runCase(f, *st, hs, rep.Cont)
 			fmt.Printf("replay run %d: queued=%d changed=%v reactorPanic=%q\n", i, o.queued, o.changed, o.recvPanic)
 			if o.viol[0] != "" {
 				r.Violation(o.viol[0], o.viol[1], rep)
@@ -781,6 +878,9 @@ func main() {
 	}
 	caseNames = func(i int) []string {
 		out := []string{"state=" + jobs[i].st.name}
+		if jobs[i].cont == contHonest {
+			out[0] += "+honest-round-completion"
+		}
 		for _, h := range jobs[i].hs {
 			out = append(out, h.name)
 		}
@@ -796,7 +896,7 @@ func main() {
 			for _, h := range j.hs {
 				names = append(names, h.name)
 			}
-			return j.st.name, j.hs[0].name, runCase(f, j.st, j.hs), names
+			return j.st.name, j.hs[0].name, runCase(f, j.st, j.hs, j.cont), names
 		})
 		return
 	}
@@ -816,7 +916,7 @@ func main() {
 				kind = kind[:k] + "}"
 			}
 			r.Violation("process-killed:"+kind+":"+o.Fatal, fmt.Sprintf("in state %s message(s) %v kill the whole process: %s", o.State, o.Msgs, o.Fatal),
-				map[string]interface{}{"state": o.State, "messages": o.Msgs})
+				map[string]interface{}{"state": o.State, "messages": o.Msgs, "continuation": jobs[i].cont})
 			return
 		}
 		if o.RecvPanic != "" {
@@ -830,7 +930,7 @@ func main() {
 		}
 		outcomes[fmt.Sprintf("%v/%d/%v", o.RecvPanic != "", o.Queued, o.Changed)] = true
 		if o.ViolKey != "" {
-			r.Violation(o.ViolKey, o.ViolWhat, map[string]interface{}{"state": o.State, "messages": o.Msgs})
+			r.Violation(o.ViolKey, o.ViolWhat, map[string]interface{}{"state": o.State, "messages": o.Msgs, "continuation": jobs[i].cont})
 		}
 		if i%1499 == 0 {
 			r.Sample(map[string]interface{}{"state": o.State, "message": o.Msgs[0], "queued_for_state_machine": o.Queued, "state_changed": o.Changed, "panic_in_reactor_contained": o.RecvPanic})
@@ -855,6 +955,7 @@ func main() {
 	r.Set("typed_messages", len(typed))
 	r.Set("raw_byte_strings", len(raw))
 	r.Set("single_message_cases", single)
+	r.Set("cases_followed_by_honest_round_completion", honest)
 	r.Set("cases_reaching_state_machine", queued)
 	r.Set("cases_changing_round_state", changed)
 	r.Set("distinct_outcome_classes", len(outcomes))
